@@ -5,6 +5,8 @@
                                           add a scratch worktree of /repo HEAD at /tmp/iso/repo, point the harness at it
   tools/iso.py own [name ...]             run my own mutants (sens/*.diff) against the checks that should see them
   tools/iso.py seeded [name ...]          run ALL 18 quick checks against kept seeded changes; prints a summary line each
+  tools/iso.py benign [name ...]          run the quick checks against behaviour-changing but property-preserving changes
+                                          (benign/<name>/patch.diff and benign/<name>.diff): every check must stay silent
   tools/iso.py teardown                   remove the copy and the worktree
 
 Results are printed and appended to /tmp/iso/results-*.txt; nothing under /verif is written
@@ -123,6 +125,26 @@ def main():
                 ids = relevant_ids(os.path.join(d, "patch.diff"))
             res, det = run_patch(os.path.join(d, "patch.diff"), ids)
             line = "%s %s" % (name, " ".join("%s=%s" % kv for kv in res.items()))
+            print(line, flush=True)
+            out.write(line + "\n")
+            for x in det:
+                out.write("    " + x + "\n")
+            out.flush()
+    elif cmd == "benign":
+        out = open(ISO + "/results-benign.txt", "a")
+        pats = sorted(glob.glob(os.path.join(VERIF, "benign", "*", "patch.diff")) + glob.glob(os.path.join(VERIF, "benign", "*.diff")))
+        for f in pats:
+            name = os.path.basename(os.path.dirname(f)) if f.endswith("patch.diff") else os.path.basename(f)[:-5]
+            if names and name not in names:
+                continue
+            ids = ALL
+            if os.environ.get("ISO_IDS"):
+                ids = os.environ["ISO_IDS"].split(",")
+            elif os.environ.get("ISO_AUTO"):
+                ids = relevant_ids(f)
+            res, det = run_patch(f, ids)
+            alarms = [k for k, v in res.items() if v != "missed"]
+            line = "%s %s %s" % (name, "SILENT" if not alarms else "ALARM:" + ",".join(alarms), " ".join("%s=%s" % kv for kv in res.items()))
             print(line, flush=True)
             out.write(line + "\n")
             for x in det:
